@@ -113,6 +113,10 @@ pub fn plan15(tier: Tier) -> Plan {
     for p in pgrid() {
         checks.push(qcheck(Mode::C15, p, "qdist", dd, 0.0));
     }
+    // finite observations whose span max - min overflows f64 (see known_findings.txt)
+    for p in [0.25, 0.5] {
+        checks.push(qcheck(Mode::C15, p, "qhuge", if tier == Tier::Quick { 8 } else { 10 }, 0.0));
+    }
     for p in [0., 0.5, 1.] {
         checks.push(qcheck(Mode::C15, p, "const1", if tier == Tier::Quick { 40 } else { 400 }, 0.0));
     }
